@@ -665,14 +665,22 @@ def _hidden_randomness(model, rep):
                                          and kk.value == kw]
                 vals = [fdefs.get(v.id, v) if isinstance(v, ast.Name) else v
                         for v in vals]
-                const = [v for v in vals if any(
-                    isinstance(y, ast.Call) and src(y.func).split(".")[-1]
-                    in ("ones", "zeros", "full", "ones_like", "zeros_like",
-                        "arange", "linspace") for y in ast.walk(v))
-                    and not any(isinstance(y, ast.Call) and src(
-                        y.func).split(".")[-1] in ("default_rng",
-                                                   "RandomState")
-                        for y in ast.walk(v))]
+                def constant_vector(v):
+                    # c * np.ones(n), np.full(n, c), ... : every entry equal
+                    while isinstance(v, ast.BinOp) and isinstance(
+                            v.op, (ast.Mult, ast.Div)):
+                        if isinstance(v.left, (ast.Constant, ast.Name)) and \
+                                isinstance(v.op, ast.Mult):
+                            v = v.right
+                        elif isinstance(v.right, (ast.Constant, ast.Name)):
+                            v = v.left
+                        else:
+                            return False
+                    return isinstance(v, ast.Call) and src(
+                        v.func).split(".")[-1] in (
+                        "ones", "zeros", "full", "ones_like", "zeros_like",
+                        "full_like")
+                const = [v for v in vals if constant_vector(v)]
                 cons2 = f"{q}:{d.rsplit('.', 1)[1]}:start-vector-generic"
                 if const:
                     rep.fail(R4, fn.path, q, cons2,
@@ -1165,6 +1173,12 @@ MUTANTS = [
       "Optional[ndarray]:\n"), "C15-R5"),
 ]
 TWINS = [
+    ("eigensolver start vector: a generic deterministic vector without a "
+     "generator",
+     (_U, "        v0 = np.random.default_rng(0).standard_normal(K.shape[0])"
+      "\n        return eigsh(",
+      "        v0 = np.sin(1. + np.arange(K.shape[0]) ** 2)\n"
+      "        return eigsh(")),
     ("eigensolver start vector set into the parameter dictionary",
      (_U, "        return eigsh(K, M=M, **{'v0': v0, **params, "
       "**solve_time_kwargs})",
